@@ -26,6 +26,7 @@ func factsMore(x *extractor) {
 	x.factsStatus()
 	x.factsLocks()
 	x.factsCtl()
+	x.factsResults()
 }
 
 const netceptorGo = "pkg/netceptor/netceptor.go"
@@ -1660,4 +1661,91 @@ func (x *extractor) factsCtl() {
 			strings.TrimSuffix(a, ".Lock()") == strings.TrimSuffix(strings.TrimPrefix(b, "defer "), ".Unlock()")
 	}
 	x.set("ctl_reload_serialised", serial)
+}
+
+// ---------------------------------------------------------------- C05: results
+
+func (x *extractor) factsResults() {
+	const wc, rw, wb = "pkg/workceptor/workceptor.go", "pkg/workceptor/remote_work.go", "pkg/workceptor/workunitbase.go"
+	cond, noStdout, bufScope, loop := "unknown", "unknown", "unknown", "unknown"
+	if fd := x.fn(wc, "Workceptor", "GetResults"); fd != nil {
+		var steps []string
+		ast.Inspect(fd.Body, func(n ast.Node) bool {
+			switch v := n.(type) {
+			case *ast.IfStmt:
+				c := x.str(v.Cond)
+				b := x.str(v.Body)
+				if strings.Contains(b, "Stdout complete") {
+					cond = c
+				}
+				if strings.Contains(b, "without producing any stdout") {
+					noStdout = c
+				}
+			case *ast.CommClause:
+				// the read of one chunk: is the buffer made in the same clause as the Read that fills it?
+				b := x.str(v)
+				if strings.Contains(b, "stdout.Read(buf)") {
+					if strings.Contains(b, "buf := make([]byte, utils.NormalBufferSize)") {
+						bufScope = "per-read"
+					} else {
+						bufScope = "shared"
+					}
+					for _, s := range v.Body {
+						t := x.str(s)
+						switch {
+						case strings.Contains(t, "stdout.Seek(filePos, 0)"):
+							steps = append(steps, "seek(filePos)")
+						case strings.Contains(t, "stdout.Read(buf)"):
+							steps = append(steps, "read")
+						case strings.Contains(t, "filePos += int64(n)") && strings.Contains(t, "resultChan <- buf[:n]"):
+							steps = append(steps, "n>0:advance,send(buf[:n])")
+						}
+					}
+				}
+			}
+			return true
+		})
+		loop = strings.Join(steps, ";")
+	}
+	x.set("res_end_cond", cond)
+	x.set("res_nostdout_cond", noStdout)
+	x.set("res_buffer", bufScope)
+	x.set("res_loop", loop)
+	isc := "unknown"
+	if fd := x.fn(wb, "", "IsComplete"); fd != nil && len(fd.Body.List) == 1 {
+		isc = x.str(fd.Body.List[0])
+	}
+	x.set("res_iscomplete", isc)
+	// the remote mirror: offset measured inside the loop, right before the request; output appended
+	off, app := "unknown", "unknown"
+	if fd := x.fn(rw, "remoteUnit", "monitorRemoteStdout"); fd != nil {
+		ast.Inspect(fd.Body, func(n ast.Node) bool {
+			if fs, ok := n.(*ast.ForStmt); ok && off == "unknown" {
+				var marks []string
+				for _, s := range fs.Body.List {
+					t := x.str(s)
+					switch {
+					case strings.HasPrefix(t, "diskStdoutSize := "):
+						marks = append(marks, t)
+					case strings.Contains(t, `workSubmitCmd["startpos"] = `):
+						i := strings.Index(t, `workSubmitCmd["startpos"] = `)
+						rest := t[i:]
+						if j := strings.Index(rest, " if "); j > 0 {
+							rest = rest[:j]
+						}
+						marks = append(marks, strings.Fields(rest)[0]+" = "+strings.Fields(rest)[2])
+						if strings.Contains(t, "os.O_CREATE+os.O_APPEND+os.O_WRONLY") && strings.Contains(t, "io.Copy(stdout, reader)") {
+							app = "append;io.Copy(stdout, reader)"
+						}
+					}
+				}
+				if len(marks) > 0 {
+					off = strings.Join(marks, ";")
+				}
+			}
+			return true
+		})
+	}
+	x.set("res_remote_offset", off)
+	x.set("res_remote_write", app)
 }
